@@ -41,6 +41,7 @@ type casRoot struct {
 }
 
 type casPlan struct {
+	ResetCycle bool       `json:"reset_cycle,omitempty"` // configure, add a rule, Reset(), then add the real rules (multi-step API sequence)
 	Workers   int         `json:"workers"`
 	FailFirst bool        `json:"fail_first"`
 	NKinds    int         `json:"kinds"`
@@ -72,6 +73,7 @@ func casGen(r *simrt.RNG, tier string) interface{} {
 		}
 	}
 	p.FailFirst = r.Bool(0.5)
+	p.ResetCycle = r.Bool(0.15)
 	p.NKinds = 2 + r.Intn(5)
 	// kinds form a DAG: a rule on kind k only adds children of kinds > k, so every
 	// cascade is finite (depth <= NKinds); some kinds have no rule (skipped events)
@@ -87,6 +89,9 @@ func casGen(r *simrt.RNG, tier string) interface{} {
 		}
 		for i := 0; i < n; i++ {
 			ru := casRule{Name: fmt.Sprintf("r%d", nr), Kind: k, Prio: r.Intn(4)}
+			if r.Bool(0.2) {
+				ru.Prio = r.Intn(7) - 3 // any integer orders rules, also negative ones
+			}
 			nr++
 			ru.Fail = r.Bool(0.25)
 			if r.Bool(0.2) {
@@ -224,6 +229,11 @@ func casShrink(pi interface{}) []interface{} {
 	if p.Workers > 1 {
 		q := clone()
 		q.Workers = p.Workers - 1
+		out = append(out, q)
+	}
+	if p.ResetCycle {
+		q := clone()
+		q.ResetCycle = false
 		out = append(out, q)
 	}
 	return out
@@ -416,6 +426,19 @@ func casRun(p *casPlan, prop string) {
 	proc := engine.NewProcessor(p.Workers)
 	st.proc = proc
 	proc.SetFailOnFirstErrorInTriggerSequence(p.FailFirst)
+	if p.ResetCycle {
+		// a rule loaded before Reset() must be gone afterwards; the configuration stays
+		if err := proc.AddRule(&engine.Rule{Name: "before-reset", KindMatch: []string{"cas.*"}, ScopeMatch: []string{}, Priority: -10,
+			Action: func(engine.Processor, engine.Monitor, *engine.Event, uint64) error {
+				simrt.Fail("oracle:reset", "rule-survived-reset", "a rule added before Processor.Reset() fired afterwards")
+				return nil
+			}}); err != nil {
+			simrt.Fail("oracle:add-rule", "add-rule", "AddRule: %v", err)
+		}
+		if err := proc.Reset(); err != nil {
+			simrt.Fail("oracle:reset", "reset-error", "Reset: %v", err)
+		}
+	}
 	for i, ru := range p.Rules {
 		st.byKind[ru.Kind] = append(st.byKind[ru.Kind], i)
 		r := &engine.Rule{Name: ru.Name, KindMatch: []string{strings.Join(kindName(ru.Kind), ".")}, ScopeMatch: []string{},
